@@ -65,7 +65,7 @@ CHECKS = {
    "'never answering' observed for 10T+2h virtual", "DESIGN.md 4 C20"),
  "C16": T("exploration", "Go race detector over free-running random histories with background revalidation (Mode R), snapshot comparison of every returned header map and body at return / quiescence / end of history, and a deterministic gate scheduler (Mode S) that parks every store and origin operation of two concurrent requests and enumerates their interleavings depth-first, judging each outcome against the sequential rules (resource, variant, body token, invalidation epoch); a store-faults part fails every foreground and background store operation in turn under the same ownership monitors, with callers that read the body only after quiescence",
    "Race reports with a repository frame, any change of a returned header map after return, any modification of the caller's request, and any response of an enumerated interleaving that no sequential rule permits are violations.",
-   "race detector sees only reached paths and its report set varies run to run; Mode S covers pairs of requests from a 24-request alphabet (12 key pairs in every tier; triples only sampled); interleavings inside one store/origin operation are left to Mode R", "DESIGN.md 3.6, 4 C16, A.2"),
+   "race detector sees only reached paths and its report set varies run to run; Mode S covers pairs of requests from a 22-request alphabet (12 key pairs in every tier; triples only sampled); interleavings inside one store/origin operation are left to Mode R", "DESIGN.md 3.6, 4 C16, A.2"),
  "C18": T("exploration", RM + "universal monitor: an only-if-cached exchange must have no upstream call (foreground or background, after quiescence) and be a usable stored response or the synthesised 504; a store-faults part repeats this with every store operation failing or returning damaged bytes in turn",
    "Any origin contact, any other result, or a stored response that needs validation is a violation.",
    "virtual time; random histories with only-if-cached sprinkled in; every method and Range requests count", "DESIGN.md 4 C18"),
